@@ -11,7 +11,8 @@ RULE = ('cases: 1..40 concurrent requests from one or two clients over 1..4 serv
         'peers (and within one peer: refused), answers delayed up to 4 s so that retransmissions meet a transaction still being '
         'processed, up to three faults, forged replies of all six kinds from unasked peers / with ids never allocated / long after '
         'completion; > 256 requests in sequence with long-lived ones in between (counter wrap-around); get_next_invoke_id on '
-        'random live sets incl. 254..256 live ids.  Compared: the whole canonical trace.  non-trivial = at least one frame, or an '
+        'random live sets incl. 254..256 live ids; nodes that are client AND server towards each other with equal ids in both directions and '
+        'late Aborts of both polarities; server applications that park answers and give them from inside a later indication to clients with equal ids.  Compared: the whole canonical trace.  non-trivial = at least one frame, or an '
         'allocation with >= 1 live transaction; distinct by scenario.')
 TRUSTED = S.TRUSTED
 ASSUMPTIONS = S.ASSUMPTIONS
@@ -52,6 +53,10 @@ def cases(rng, tier):
         out.append(S.scenario_case(S.gen_concurrent(rng), 'concurrent'))
     for _ in range(3 if tier == 'thorough' else 1):
         out.append(S.scenario_case(S.gen_wrap(rng), 'id-wrap-around'))
+    for _ in range(600 if tier == 'thorough' else 80):
+        out.append(S.scenario_case(S.gen_bidirectional(rng), 'bidirectional'))
+    for _ in range(300 if tier == 'thorough' else 40):
+        out.append(S.scenario_case(S.gen_park_flush(rng), 'parked-answers'))
     out += alloc_cases(rng, 3000 if tier == 'thorough' else 300)
     return out
 
@@ -60,6 +65,8 @@ def direct(rng, tier, focus=()):
     big = tier == 'thorough'
     fams = [('concurrent', lambda r: S.gen_concurrent(r), 12000 if big else 900),
             ('wrap', lambda r: S.gen_wrap(r), 8 if big else 2),
+            ('bidirectional', lambda r: S.gen_bidirectional(r), 8000 if big else 800),
+            ('parked-answers', lambda r: S.gen_park_flush(r), 4000 if big else 400),
             ('transaction', lambda r: S.gen_transaction(r), 8000 if big else 800)]
     failures, stats = S.direct_families(rng, fams, S.check_c11, focus)
     failures.extend(S.known_replays('C11', S.check_c11))
